@@ -341,6 +341,6 @@ int aln_seqprofile_meetup(struct aln_mem* m,int old_cor[],int* meet,int* t,float
         *meet = c;
         *t = transition;
         *score = max;
-        KALIGN_VERIF_EVENT(KV_EV_MEET_END, m, NULL, 1, c, transition);
+        KALIGN_VERIF_EVENT(KV_EV_MEET_END, m, &max, 1, c, transition);
         return OK;
 }
